@@ -89,14 +89,22 @@ PairClauses(p) ==
             <<"C18_placement", C18_placement(p)>> >>
     [] PROP = "C19" ->
          << <<"C19_same", C19_same(p)>>, <<"C19_events", C19_events(p)>> >>
+    [] PROP = "C20" ->
+         << <<"C20_returns", C20_returns(p)>> >> \o
+         (IF ~(p.a.ok /\ p.b.ok) THEN <<>> ELSE
+          << <<"C20_decode", C20_decode(p)>>, <<"C20_fidelity_toks", C20_fidelity_toks(p)>>,
+             <<"C20_fidelity_errs", C20_fidelity_errs(p)>>, <<"C20_fidelity_lit", C20_fidelity_lit(p)>>,
+             <<"C20_enum", C20_enum(p)>>, <<"C20_tile", C20_tile(p)>>, <<"C20_pos", C20_pos(p)>>,
+             <<"C20_err_pos", C20_err_pos(p)>>, <<"C20_payload_range", C20_payload_range(p)>>,
+             <<"C20_payload_value", C20_payload_value(p)>> >>)
     [] OTHER -> <<>>
-IsPair == PROP \in {"C15", "C16", "C17", "C18", "C19"}
+IsPair == PROP \in {"C15", "C16", "C17", "C18", "C19", "C20"}
 
 EmitVerdict(id, cl) ==
   cl[2] = {} \/ PrintT(<<"VERDICT", id, cl[1], Cardinality(cl[2]), CHOOSE x \in cl[2] : TRUE>>)
 
 ReportPair(p) ==
-  IF ~(CertOK(p.a) /\ CertOK(p.b) /\ (PROP = "C15" => CertOK(p.ab))) THEN PrintT(<<"CERTFAIL", p.id>>)
+  IF ~(CertOK(p.a) /\ (PROP = "C20" \/ CertOK(p.b)) /\ (PROP = "C15" => CertOK(p.ab))) THEN PrintT(<<"CERTFAIL", p.id>>)
   ELSE IF PROP \in {"C16", "C17", "C18"} /\ ~Ok2(p) THEN PrintT(<<"SKIPPED", p.id>>)
   ELSE LET cls == PairClauses(p) IN \A i \in 1..Len(cls) : EmitVerdict(p.id, cls[i])
 
